@@ -270,6 +270,16 @@ def isProbRowE (tol : Rat) (n : Nat) (row : Nat → Rat) : Bool :=
 def isProbRowSp (tol : Rat) (n : Nat) (row : Nat → Rat) : Bool :=
   !(diffSmall tol (sumTo n row) 1 || diffSmall tol (sumTo n (fun i => absQ (row i))) 1)
 
+/-- the sparse form with fixes/C05-2-sparse-isprobability-sign.diff applied: the stored values are walked first
+    (`for (InnerIterator it(in, k); it; ++it) if (it.value() < 0.0) return false;` — a position that is not stored holds 0,
+    so this tests every entry), then `checkDifferentSmall(row.sum(), 1.0)` per row; the `cwiseAbs` test is gone -/
+def isProbRowSpSigned (tol : Rat) (n : Nat) (row : Nat → Rat) : Bool :=
+  !((List.range n).any (fun i => decide (row i < 0))) && !diffSmall tol (sumTo n row) 1
+
+/-- the sparse form as the source currently has it (`Gen.BeliefDeepSrc.sparseSignTest`) -/
+def isProbRowSpAs (signTest : Bool) (tol : Rat) (n : Nat) (row : Nat → Rat) : Bool :=
+  if signTest then isProbRowSpSigned tol n row else isProbRowSp tol n row
+
 /-- `POMDP::Model(o, of, s, a, t, r, d)`: `MDP::Model::setTransitionFunction(t)` = `isProbability(S, A, S, t)`,
     then `POMDP::Model::setObservationFunction(of)` = `isProbability(O, of[s1][a])` for every `(s1, a)`;
     the tables are then copied entry by entry (`transitions_[a](s, s1) = t[s][a][s1]`, `observations_[a](s1, o) = of[s1][a][o]`) -/
